@@ -157,7 +157,8 @@ func (c *c16Cast) runCell(cell c16Cell) (obs c16Obs, want []string) {
 				cfg.TrustedSignatureCertsFiles = []string{WritePEM(filesDir, "ca.pem", c.ca.Cert)}
 			case "reprovision-crl_url-after-trusted-cert-file-replaced":
 				cfg.CRLUrls = []string{c16URL}
-				cfg.TrustedSignatureCertsFiles = []string{WritePEM(filesDir, "ca.pem", trustedNow.Cert)}
+				// (size and modification time of the file are the same before and after the replacement)
+				cfg.TrustedSignatureCertsFiles = []string{WritePEMSameStat(filesDir, "ca.pem", trustedNow.Cert)}
 			case "provision-crl_file":
 				cfg.CRLFiles = []string{crlFile}
 				cfg.TrustedSignatureCertsFiles = []string{WritePEM(filesDir, "ca.pem", c.ca.Cert)}
